@@ -369,3 +369,66 @@ func HeaderSummary(h http.Header, only ...string) string {
 }
 
 func bufioReader(s string) *bufio.Reader { return bufio.NewReader(bytes.NewReader([]byte(s))) }
+
+// ForwardedElements parses a Forwarded header value (RFC 7239): the elements of the list, each a map of its
+// parameters (names in lower case, quoted values unquoted).
+func ForwardedElements(value string) []map[string]string {
+	var (
+		out     []map[string]string
+		cur     = map[string]string{}
+		name    strings.Builder
+		val     strings.Builder
+		inValue bool
+		quoted  bool
+	)
+
+	flushParam := func() {
+		if n := strings.ToLower(strings.TrimSpace(name.String())); n != "" {
+			cur[n] = val.String()
+		}
+
+		name.Reset()
+		val.Reset()
+
+		inValue = false
+	}
+
+	for i := 0; i < len(value); i++ {
+		c := value[i]
+
+		switch {
+		case quoted && c == '\\' && i+1 < len(value):
+			i++
+			val.WriteByte(value[i])
+		case quoted && c == '"':
+			quoted = false
+		case quoted:
+			val.WriteByte(c)
+		case c == '"' && inValue:
+			quoted = true
+		case c == '=' && !inValue:
+			inValue = true
+		case c == ';':
+			flushParam()
+		case c == ',':
+			flushParam()
+
+			out = append(out, cur)
+			cur = map[string]string{}
+		case inValue:
+			if c != ' ' {
+				val.WriteByte(c)
+			}
+		default:
+			name.WriteByte(c)
+		}
+	}
+
+	flushParam()
+
+	if len(cur) != 0 {
+		out = append(out, cur)
+	}
+
+	return out
+}
